@@ -86,16 +86,6 @@ impl World {
         if matches!(res, Caught::Stopped) && self.ok() {
             self.violate("H.stopped", "a destructor stopped the run but no oracle explains why".into());
         }
-        // destructors that unwound (injected): remember which values
-        for t in tok::take_drop_faulted() {
-            if let Some(oid) = self.tok_owner(t) {
-                if let Some(o) = self.sh.objs.get_mut(&oid) {
-                    o.drop_faulted = true;
-                }
-                self.stats.drop_faults += 1;
-                self.stats.flag("C05.destructor-fault");
-            }
-        }
         let faulted = tok::faults_fired() != fired0;
         self.stats.faults_fired += tok::faults_fired() - fired0;
         let some = match res {
